@@ -10,21 +10,25 @@
 EXTENDS Integers, Sequences, FiniteSets, TLC
 
 (* ---- structure ---- *)
-Kinds == {"hdr", "cert", "pub", "sig", "unkC", "unkN"}       \* unkC / unkN: unknown record, critical / flagged non-critical
+(* unkC / unkN: unknown record, critical / flagged non-critical.  hdrN, certN, pubN, sigN: a KNOWN record whose header carries the           *)
+(* non-critical flag -- the flag only says what to do with an element the parser does not know; a known element keeps its meaning and  *)
+(* its place in the order whatever its flags say.                                                                                      *)
+Kinds == {"hdr", "cert", "pub", "sig", "unkC", "unkN", "hdrN", "certN", "pubN", "sigN"}
+Base(k) == CASE k = "hdrN" -> "hdr" [] k = "certN" -> "cert" [] k = "pubN" -> "pub" [] k = "sigN" -> "sig" [] OTHER -> k
 KnownKinds == {"hdr", "cert", "pub", "sig"}
-Rank(k) == CASE k = "hdr" -> 0 [] k = "cert" -> 1 [] k = "pub" -> 2 [] k = "sig" -> 3
-Count(f, k) == Cardinality({i \in DOMAIN f : f[i] = k})
-IsKnown(k) == k \in KnownKinds
+Rank(k) == CASE Base(k) = "hdr" -> 0 [] Base(k) = "cert" -> 1 [] Base(k) = "pub" -> 2 [] Base(k) = "sig" -> 3
+Count(f, k) == Cardinality({i \in DOMAIN f : Base(f[i]) = k})
+IsKnown(k) == Base(k) \in KnownKinds
 Known(f) == SelectSeq(f, IsKnown)
 (* one header, certificate records, publication records, one signature, in that order; unknown non-critical records are skipped, but *)
 (* nothing at all may follow the signature record                                                                                  *)
 Accept(magic, f) ==
     /\ magic = "ok"
     /\ Count(f, "unkC") = 0 /\ Count(f, "hdr") = 1 /\ Count(f, "sig") = 1
-    /\ f[Len(f)] = "sig"
+    /\ Base(f[Len(f)]) = "sig"
     /\ LET kn == Known(f) IN \A i \in 1..(Len(kn) - 1) : Rank(kn[i]) <= Rank(kn[i + 1])
 (* the signed range: the magic and every record before the signature record *)
-SignedRecords(f) == (CHOOSE i \in DOMAIN f : f[i] = "sig") - 1
+SignedRecords(f) == (CHOOSE i \in DOMAIN f : Base(f[i]) = "sig") - 1
 
 (* ---- trust ---- *)
 (* a verification case: what the signer signed, with what, how the signer certificate chains, what the verifier is configured with *)
